@@ -729,6 +729,7 @@ def run(ctx, scratch):
                 'claims). Metrics: random weighted graphs (integer and dyadic weights, undirected / directed / with '
                 'self-loops / disconnected) x random valid dendrograms. distinct = hash of (entry point, dendrogram, '
                 'arguments); non-trivial = at least 3 leaves and admissible arguments')
+    ctx.rule += ' Source terms: the statements regenerated from postprocess.py (the cut cores alone, and the whole functions cut + get_labels with the np.argsort answer read back from the implementation) are executed inside Coq on every one of these calls and compared with the implementation (evidence key source_terms_evaluated).'
     ctx.assumptions = ['ids and sizes of the input dendrogram are integers stored as floats; heights are dyadic rationals so '
                        'that float -> Q is exact',
                        'valid dendrogram = n-1 rows merging two distinct live ids, size column = leaves below; the claims on '
